@@ -15,7 +15,7 @@ def _sweep(name, flags):
 
 def _part(name, part, flags):
     return rc(name, 'harness/C07_kernels.cpp', None, flags=('-DC07_PART=%d %s' % (part, flags)).strip(),
-              quick=dict(scale=1.0), thorough=dict(scale=10, seeds=3))
+              quick=dict(scale=4.0), thorough=dict(scale=40, seeds=3))
 
 
 _BINS = []
@@ -40,12 +40,14 @@ PROP = dict(
          'types, divRoundUp<T> for 7 integer types (__int128 oracle), madd / lerp<float|vec3f> (exact re-evaluation of '
          'the definition), lerp<double> and the double overloads (long double), per-channel packing of '
          'cvt_uint32(vec4f) / linear_to_srgba8, pcg32_biased_float_distribution and uniform_real_distribution'
-         '<float|double> over 8 engines incl. engines that return min()/max() (range within one rounding step, equal '
-         'streams from equal seeds); non-trivial = arguments not all equal and at least one argument on a boundary '
+         '<float|double> over 8 engines incl. engines that return min()/max() (range widened by the derived rounding '
+         'bound: 1 step for pcg32_biased, 3 for uniform_real whose value goes through 4 roundings; equal streams from '
+         'equal seeds; ranges so narrow that the per-step scale is subnormal are a separate *_tiny_range property, '
+         'which fails on the unchanged tree - notes/C07.md); non-trivial = arguments not all equal and at least one argument on a boundary '
          'of its type (grid value, remainder 0/1/b-1, a=max-b, edge seed/engine); distinct by hash of the case',
     # 2 builds x (rcp 4227858432 + rsqrt 2113929216 + rcp_safe 4278190080 + sign 4278190082 + deg2rad 2^32 +
     # 2 x packing 4278190082 + makeRandomColor 2^32) = 64088965132 when every sweep ran to completion; the
-    # rapidcheck part adds ~1.4e5.  A floor just below the exact sweep total makes a missing / aborted sweep VACUOUS.
+    # rapidcheck part adds ~5e5 (quick).  A floor just below the exact sweep total makes a missing / aborted sweep VACUOUS.
     floor=dict(quick=64088965132, thorough=64088965132),
     exhaustive=True,
     parallel=10,
